@@ -108,7 +108,7 @@ def run_threads(m, sc, log=None):
     m.cur = m.threads[0]
     m.pass_no = K * T + 1
     sch.finish()
-    if sch.posmap is not None and sch.missing:
+    if sch.posmap is not None and sch.missing and not getattr(m, 'allow_missing', False):
         raise MissingKey(sch)
 
 
